@@ -270,11 +270,11 @@ class Layout(ShapeCastable, metaclass=ABCMeta):
         for key, field in self:
             shape = Shape.cast(field.shape)
             field_value = value[field.offset:field.offset+shape.width]
+            if shape.signed:
+                field_value = field_value.as_signed()
             if isinstance(field.shape, ShapeCastable):
                 fields[str(key)] = field.shape.format(field.shape(field_value), "")
             else:
-                if shape.signed:
-                    field_value = field_value.as_signed()
                 fields[str(key)] = Format("{}", field_value)
         return Format.Struct(value, fields)
 
@@ -567,11 +567,11 @@ class ArrayLayout(Layout):
         shape = Shape.cast(self._elem_shape)
         for index in range(self._length):
             field_value = value[shape.width * index:shape.width * (index + 1)]
+            if shape.signed:
+                field_value = field_value.as_signed()
             if isinstance(self._elem_shape, ShapeCastable):
                 fields.append(self._elem_shape.format(self._elem_shape(field_value), ""))
             else:
-                if shape.signed:
-                    field_value = field_value.as_signed()
                 fields.append(Format("{}", field_value))
         return Format.Array(value, fields)
 
@@ -852,6 +852,10 @@ class View(ValueCastable):
             value = self.__target[field.offset:field.offset + field.width]
         # Field guarantees that the shape-castable object is well-formed, so there is no need
         # to handle erroneous cases here.
+        # The slice of the underlying value is unsigned; a field with a signed shape (whether plain or
+        # shape-castable, e.g. an enumeration with negative members) is a signed value.
+        if Shape.cast(shape).signed:
+            value = value.as_signed()
         if isinstance(shape, ShapeCastable):
             value = shape(value)
             if not isinstance(value, (Value, ValueCastable)):
@@ -859,10 +863,7 @@ class View(ValueCastable):
                     f"{shape!r}.__call__() must return a value or a value-castable object, not "
                     f"{value!r}")
             return value
-        if Shape.cast(shape).signed:
-            return value.as_signed()
-        else:
-            return value
+        return value
 
     def __getattr__(self, name):
         """Access a field of the underlying value.
